@@ -677,7 +677,7 @@ def execute(sim, plan):
                 deviation("spec_needs_caller_lock", "mainline", f"range {text!r} on an unlocked branch: {got[1]}")
                 return
             if got[0] != "ok":
-                if got[0] == "refused" and (before_of_other_branch(q[1]) or before_of_other_branch(q[2])):
+                if got[0] == "refused" and (before_of_other_branch(q[1]) or before_of_other_branch(q[2])) and ea[0] == "rev" and eb[0] == "rev":
                     deviation("spec_before_other_branch", "before:revno:N:BRANCH:in_history", f"range {text!r} refused: {got[1]}; expected {ea}..{eb}")
                     return
                 if ea[0] in ("rev", "null") and eb[0] in ("rev", "null"):
